@@ -58,7 +58,8 @@ FLOAT_BOUNDS = [0.0, -0.0, 1.5, -2.25, float("inf"), float("-inf"), float("nan")
                 3.4028234663852886e38, 1.401298464324817e-45, -1.1754943508222875e-38]
 DOUBLE_BOUNDS = [0.0, -0.0, 1.5, 0.1, -1e308, 5e-324, 1.7976931348623157e308, float("inf"),
                  float("-inf"), float("nan"), 2.0**53 + 2]
-STRING_BOUNDS = ["", "a", "héllo", "\U0001F600x", "\x00", 'q"uo\\te\n', "x" * 130, "中文"]
+STRING_BOUNDS = ["", "a", "héllo", "\U0001F600x", "\x00", 'q"uo\\te\n', "x" * 130, "中文",
+                 "\ufeffbom", "\ufeff", "a\ufeff", "\ud7ff\ue000\uffff", "\U0010ffff", "\u2028\u2029", "\x7f\x80\x9f", " lead and trail "]
 BYTES_BOUNDS = [b"", b"\x00", b"\x80\xff", b"abc", bytes(range(256))[100:240], b"\xff" * 3]
 TS_BOUNDS = [(0, 0), (1, 0), (-1, 0), (0, 1000), (-1, 999999000), (0, 999999000), (TS_MIN_S, 0),
              (TS_MAX_S, 999999000), (1700000000, 123456000), (-1700000000, 1000), (951782400, 0),
@@ -201,6 +202,40 @@ def value_class(kind: str, v, build: Optional[Build] = None, type_name: Optional
     return type(v).__name__
 
 
+def default_leaf(fi: FieldInfo):
+    """the tree leaf for 'this field set to its default value'"""
+    if fi.wkt == "timestamp":
+        return ("ts", 0, 0)
+    if fi.wkt == "duration":
+        return ("du", 0, 0)
+    if fi.wkt and fi.wkt.startswith("wrapper:"):
+        k = fi.wkt.split(":")[1]
+        return norm_leaf(k, scalar_bounds(k)[0]) if k not in ("string", "bytes") else ("" if k == "string" else b"")
+    if fi.kind == "message":
+        return {}
+    return default_of(fi)
+
+
+def presence_only_trees(build: Build, sub: MsgInfo) -> List[dict]:
+    """values of a message type that carry ONLY presence / selection information: every field that is set holds its
+    default value (a default-valued selected oneof member, a present-but-empty sub-message, an optional at its
+    default).  Such a message is falsy and compares equal to an unset one, yet encodes to a non-empty byte string."""
+    out = []
+    by_num = {f.number: f for f in sub.fields}
+    t = {members[0]: default_leaf(by_num[members[0]]) for g, members in sub.oneofs.items()}
+    if t:
+        out.append(t)
+        g, members = next(iter(sub.oneofs.items()))
+        out.append({members[-1]: default_leaf(by_num[members[-1]])})
+    t = {f.number: {} for f in sub.fields if f.label == "singular" and f.kind == "message" and not f.wkt}
+    if t:
+        out.append(t)
+    t = {f.number: default_leaf(f) for f in sub.fields if f.label == "optional"}
+    if t:
+        out.append(t)
+    return out
+
+
 def _only_empties(v) -> bool:
     if not isinstance(v, dict):
         return False
@@ -310,6 +345,7 @@ class Gen:
             g = Gen(self.b, self.rng, max_depth=2)
             out.append(g.tree(sub, 1, "random"))
             out.append(g.tree(sub, 1, "maximal"))
+            out.extend(presence_only_trees(self.b, sub))
             return out
         return [norm_leaf(fi.kind, v) for v in scalar_bounds(fi.kind)]
 
